@@ -3,6 +3,7 @@ package props
 import (
 	"fmt"
 	"go/token"
+	"go/types"
 	"strings"
 
 	"golang.org/x/tools/go/ssa"
@@ -55,6 +56,7 @@ func c15(r *core.Run) {
 	r.Assumptions = []string{"timerqueue calls its callback once per added item after the duration", "channel range ends only when the channel is closed"}
 
 	r.Rule("R1", "must-reply: every return of query request handling has replied (state Yes) whatever the callback does; the handler-runner's panics are recovered", 3)
+	r.Rule("Q1", "missing query is an error: in query request handling the call that runs the event's callback is reached only on paths where the decoded query was tested non-empty; the test does not depend on the payload being non-empty", 1)
 	r.Rule("G1", "group funnel: the listener forwards each request through enqueue with the resource's group, and the expiry enqueues the nil call with the resource's group", 2)
 	r.Rule("N1", "nil callback: cb(nil) is called directly only on the failed-subscribe edge (which publishes nothing and returns) and otherwise only inside the closure the expiry function enqueues; the expiry function is the timer queue's callback; the expiry drains the subscription before enqueueing", 5)
 	r.Rule("T1", "configured duration: the timer queue that expires query events is (re)built unconditionally in serve's initialisation, before the workers start, with the duration field that SetQueryEventDuration stores; a queue kept from a previous run would keep that run's duration", 1)
@@ -98,6 +100,58 @@ func c15(r *core.Run) {
 	}
 
 	// ---- R1 --------------------------------------------------------------
+	// ---- Q1 --------------------------------------------------------------
+	// the callback runs only for a request that carries a query: typestate 1 = the decoded query
+	// was seen non-empty; the call that runs the callback needs it on every path (an empty payload
+	// skips the decoding, not the test)
+	{
+		var qfld core.Field
+		if st, ok := structType(p, "", "resQueryRequest"); ok {
+			for i := 0; i < st.NumFields(); i++ {
+				if isStringType(st.Field(i).Type()) {
+					qfld = core.Field{Struct: "resQueryRequest", Name: st.Field(i).Name()}
+				}
+			}
+		}
+		var runs []ssa.CallInstruction
+		for _, c := range helperCalls(p, hq) {
+			cal := c.Common().StaticCallee()
+			if cal == nil || cal.Pkg != hq.Pkg {
+				continue
+			}
+			// the call that hands the event's callback on (to the function that invokes it)
+			for _, a := range c.Common().Args {
+				if f, ok := core.LoadedField(a); ok && strings.HasSuffix(f.Struct, "queryEvent") {
+					if _, isSig := a.Type().Underlying().(*types.Signature); isSig {
+						runs = append(runs, c)
+					}
+				}
+			}
+		}
+		fl := &core.Flow{Fn: hq, Entry: core.StateSet(0).Add(0), Inline: func(cal *ssa.Function) bool { return p.IsPrivateHelper(cal) && cal.Pkg == hq.Pkg }}
+		fl.BranchOn = func(cond ssa.Value, succ int, st int) (int, bool) {
+			ci := core.Cond(cond)
+			if ci.Kind == "constcmp" && ci.HasFld && ci.Field == qfld && ci.Const != nil && ci.Const.ExactString() == `""` {
+				truth := succ == 0
+				if ci.Negate {
+					truth = !truth
+				}
+				if (ci.Op == token.NEQ) == truth {
+					return 1, true
+				}
+			}
+			return st, true
+		}
+		fl.Branch = func(iff *ssa.If, succ int, st int) (int, bool) { return fl.BranchOn(iff.Cond, succ, st) }
+		resQ := fl.Run()
+		if qfld.Name == "" || len(runs) == 0 {
+			r.Unres("Q1", "resQueryRequest.<query> / callback hand-over", fmt.Sprintf("query field resolved=%v, calls handing the callback on=%d", qfld.Name != "", len(runs)))
+		}
+		for _, c := range runs {
+			st := resQ.Before[c]
+			r.Check(!st.Empty() && st.Only(1), "Q1", core.FuncName(hq), "callback-only-for-a-non-empty-query", p.InstrPos(c), "every path to the callback saw a non-empty query", "a query request can reach the callback without its query having been tested non-empty (e.g. an empty payload): it is answered as if it carried the event creator's query instead of the missing-query error")
+		}
+	}
 	res := mQ.flow(hq, core.StateSet(0).Add(stNo))
 	for _, ret := range core.Returns(hq) {
 		st := res.Before[ret]
